@@ -29,17 +29,22 @@ From Coq Require Import List Arith NArith Bool.
 Import ListNotations.
 
 Record cfg := { use_claim : bool; create_cleanup : bool; use_adm : bool;
-                purge_revoked : bool   (* NOT a tree variant: the listing's clean-up also purges revoked codes (refuted below) *) }.
-Definition Current : cfg := {| use_claim := true; create_cleanup := true; use_adm := true; purge_revoked := false |}.
-Definition Pinned : cfg := {| use_claim := false; create_cleanup := false; use_adm := false; purge_revoked := false |}.
-Definition PurgeRevoked : cfg := {| use_claim := true; create_cleanup := true; use_adm := true; purge_revoked := true |}.
+                purge_revoked : bool;  (* NOT a tree variant: the listing's clean-up also purges revoked codes (refuted below) *)
+                claim_lease : option N (* NOT a tree variant: Some L = the claim marker lives at most L seconds (refuted below);
+                                          None = it lives for the code's remaining activation window *) }.
+Definition Current : cfg := {| use_claim := true; create_cleanup := true; use_adm := true; purge_revoked := false; claim_lease := None |}.
+Definition Pinned : cfg := {| use_claim := false; create_cleanup := false; use_adm := false; purge_revoked := false; claim_lease := None |}.
+Definition PurgeRevoked : cfg := {| use_claim := true; create_cleanup := true; use_adm := true; purge_revoked := true; claim_lease := None |}.
+Definition Lease30 : cfg :=
+  {| use_claim := true; create_cleanup := true; use_adm := true; purge_revoked := false; claim_lease := Some 30%N |}.
 
 (* static scenario parameters *)
 Record params := {
   p_tgt : N;                 (* the code's TargetClientID *)
   p_taddr : N;               (* the code's TargetAddress (an opaque name) *)
   p_qmax : nat;              (* maxActiveMappingsPerClient *)
-  p_pre : N -> nat           (* active mappings a client already listens on (never change during the run) *)
+  p_pre : N -> nat;          (* active mappings a client already listens on (never change during the run) *)
+  p_win : N                  (* the code's activation window in seconds (ActivationTTL) *)
 }.
 
 (* error classes (coreerrors codes as mapped by the harness) *)
@@ -59,11 +64,13 @@ Record sh := {
   by_code : option crec;
   by_id : option crec;
   claim : bool;                  (* ...:claim:<code> present *)
-  admk : list N;                (* admission marker of <client> (scope "mappings") present (30 s TTL, independent of the code's expiry) *)
+  admk : list (N * N);                (* admission marker of <client> (scope "mappings") present (30 s TTL, independent of the code's expiry) *)
   mains : list mrec;             (* tunnox:port_mapping:<id> *)
   glob : list nat;               (* tunnox:mappings:list (ids of the entries) *)
   cidx : list (N * nat);         (* tunnox:client_mappings:<client> entries *)
-  tidx : bool                    (* the code's id is in tunnox:index:conncode:target:<target> (no TTL tied to the code) *)
+  tidx : bool;                   (* the code's id is in tunnox:index:conncode:target:<target> (no TTL tied to the code) *)
+  now : N;                       (* seconds since the code was created (one clock: the store's TTLs and the callers' time.Now) *)
+  claim_dl : N                   (* deadline of the claim marker (meaningful while claim = true) *)
 }.
 
 (* RRevoked: the revocation wrote the revoked record under both keys.  RGone: RevokeConnectionCode returned nil through
@@ -81,7 +88,8 @@ Inductive pc :=
 | PPGet | PPDelCode | PPDelId | PPDelClaim | PPRmIdx.   (* the asynchronous clean-up: connCodeRepo.Delete(id) *)
 
 (* KAct listen laddr laddr_ok *)
-Inductive kind := KAct (l : N) (la : N) (ok : bool) | KRev | KTick | KList.
+Inductive kind := KAct (l : N) (la : N) (ok : bool) | KRev | KTick | KList
+| KStall (d : N).   (* d seconds pass (a caller stalls, the clock goes on): markers and records whose ttl has run out vanish *)
 
 Record lo := {
   l_me : nat;
@@ -103,23 +111,28 @@ Definition set_err (t : lo) (e : N) : lo :=
 Definition finish (t : lo) (r : res) : lo := set_pc t (PDone r).
 
 Definition set_expired (s : sh) : sh :=   (* TTL: code keys and claim vanish *)
-  {| expired := true; by_code := None; by_id := None; claim := false; admk := admk s; mains := mains s; glob := glob s; cidx := cidx s; tidx := tidx s |}.
+  {| expired := true; by_code := None; by_id := None; claim := false; admk := admk s; mains := mains s; glob := glob s; cidx := cidx s; tidx := tidx s; now := now s; claim_dl := claim_dl s |}.
 Definition set_by_code (s : sh) (r : option crec) : sh :=
-  {| expired := expired s; by_code := r; by_id := by_id s; claim := claim s; admk := admk s; mains := mains s; glob := glob s; cidx := cidx s; tidx := tidx s |}.
+  {| expired := expired s; by_code := r; by_id := by_id s; claim := claim s; admk := admk s; mains := mains s; glob := glob s; cidx := cidx s; tidx := tidx s; now := now s; claim_dl := claim_dl s |}.
 Definition set_by_id (s : sh) (r : option crec) : sh :=
-  {| expired := expired s; by_code := by_code s; by_id := r; claim := claim s; admk := admk s; mains := mains s; glob := glob s; cidx := cidx s; tidx := tidx s |}.
+  {| expired := expired s; by_code := by_code s; by_id := r; claim := claim s; admk := admk s; mains := mains s; glob := glob s; cidx := cidx s; tidx := tidx s; now := now s; claim_dl := claim_dl s |}.
 Definition set_claim (s : sh) (b : bool) : sh :=
-  {| expired := expired s; by_code := by_code s; by_id := by_id s; claim := b; admk := admk s; mains := mains s; glob := glob s; cidx := cidx s; tidx := tidx s |}.
+  {| expired := expired s; by_code := by_code s; by_id := by_id s; claim := b; admk := admk s; mains := mains s; glob := glob s; cidx := cidx s; tidx := tidx s; now := now s; claim_dl := claim_dl s |}.
 Definition set_mains (s : sh) (m : list mrec) : sh :=
-  {| expired := expired s; by_code := by_code s; by_id := by_id s; claim := claim s; admk := admk s; mains := m; glob := glob s; cidx := cidx s; tidx := tidx s |}.
+  {| expired := expired s; by_code := by_code s; by_id := by_id s; claim := claim s; admk := admk s; mains := m; glob := glob s; cidx := cidx s; tidx := tidx s; now := now s; claim_dl := claim_dl s |}.
 Definition set_glob (s : sh) (g : list nat) : sh :=
-  {| expired := expired s; by_code := by_code s; by_id := by_id s; claim := claim s; admk := admk s; mains := mains s; glob := g; cidx := cidx s; tidx := tidx s |}.
+  {| expired := expired s; by_code := by_code s; by_id := by_id s; claim := claim s; admk := admk s; mains := mains s; glob := g; cidx := cidx s; tidx := tidx s; now := now s; claim_dl := claim_dl s |}.
 Definition set_cidx (s : sh) (c : list (N * nat)) : sh :=
-  {| expired := expired s; by_code := by_code s; by_id := by_id s; claim := claim s; admk := admk s; mains := mains s; glob := glob s; cidx := c; tidx := tidx s |}.
+  {| expired := expired s; by_code := by_code s; by_id := by_id s; claim := claim s; admk := admk s; mains := mains s; glob := glob s; cidx := c; tidx := tidx s; now := now s; claim_dl := claim_dl s |}.
 Definition set_tidx (s : sh) (b : bool) : sh :=
-  {| expired := expired s; by_code := by_code s; by_id := by_id s; claim := claim s; admk := admk s; mains := mains s; glob := glob s; cidx := cidx s; tidx := b |}.
-Definition set_adm (s : sh) (a : list N) : sh :=
-  {| expired := expired s; by_code := by_code s; by_id := by_id s; claim := claim s; admk := a; mains := mains s; glob := glob s; cidx := cidx s; tidx := tidx s |}.
+  {| expired := expired s; by_code := by_code s; by_id := by_id s; claim := claim s; admk := admk s; mains := mains s; glob := glob s; cidx := cidx s; tidx := b; now := now s; claim_dl := claim_dl s |}.
+Definition set_claim_dl (s : sh) (b : bool) (d : N) : sh :=
+  {| expired := expired s; by_code := by_code s; by_id := by_id s; claim := b; admk := admk s; mains := mains s; glob := glob s; cidx := cidx s; tidx := tidx s; now := now s; claim_dl := d |}.
+Definition set_clock (s : sh) (n : N) (c : bool) (a : list (N * N)) : sh :=
+  {| expired := expired s; by_code := by_code s; by_id := by_id s; claim := c; admk := a; mains := mains s; glob := glob s; cidx := cidx s; tidx := tidx s; now := n; claim_dl := claim_dl s |}.
+Definition adm_ttl : N := 30.    (* quotaAdmissionTTL, seconds (side condition: equals the regenerated value) *)
+Definition set_adm (s : sh) (a : list (N * N)) : sh :=
+  {| expired := expired s; by_code := by_code s; by_id := by_id s; claim := claim s; admk := a; mains := mains s; glob := glob s; cidx := cidx s; tidx := tidx s; now := now s; claim_dl := claim_dl s |}.
 
 (* one forward write: does it fail, and the remaining fault budget *)
 Definition tick_fault (f : option nat) : bool * option nat :=
@@ -153,7 +166,10 @@ Section Step.
   (* how an activation returns r once it holds the admission marker: the deferred ReleaseAdmission runs last *)
   Definition fin (r : res) : pc := if use_adm C then PRelAdm r else PDone r.
   Definition leave (e : N) : pc := if use_claim C then PRelease e else fin (RErr e).
-  Definition adm_held (s : sh) (l : N) : bool := existsb (N.eqb l) (admk s).
+  Definition adm_held (s : sh) (l : N) : bool := existsb (fun e => N.eqb (fst e) l) (admk s).
+  (* lifetime of a claim marker taken now: the remaining activation window, or the lease if one is configured *)
+  Definition claim_ttl (s : sh) : N :=
+    match claim_lease C with None => (p_win P - now s)%N | Some L => N.min L (p_win P - now s)%N end.
 
   Definition act_step (l la : N) (la_ok : bool) (t : lo) (s : sh) : lo * sh :=
     let me := l_me t in
@@ -173,7 +189,7 @@ Section Step.
         let t := set_fault t fl in
         if f then (finish t (RErr EStorage), s)
         else if adm_held s l then (finish t (RErr EConflict), s)      (* same client already in admission *)
-        else (set_pc t PQuota, set_adm s (l :: admk s))
+        else (set_pc t PQuota, set_adm s ((l, (now s + adm_ttl)%N) :: admk s))
     | PQuota =>                                         (* GetClientPortMappings + quota *)
         if p_qmax P <=? quota_count P s l then (set_pc t (fin (RErr EQuota)), s)
         else if use_claim C
@@ -185,7 +201,7 @@ Section Step.
         let t := set_fault t fl in
         if f then (set_pc t (fin (RErr EStorage)), s)
         else if claim s then (set_pc t (fin (RErr EConflict)), s)
-        else (set_pc t PMain, set_claim s true)
+        else (set_pc t PMain, set_claim_dl s true (now s + claim_ttl s)%N)
     | PMain =>                                          (* repo.Create: Set main record *)
         let '(f, fl) := tick_fault (l_fault t) in
         let t := set_fault t fl in
@@ -226,7 +242,7 @@ Section Step.
     | PRbGlob => (set_pc t PRbMain, set_glob s (filter (fun i => negb (Nat.eqb i me)) (glob s)))
     | PRbMain => (set_pc t (leave (l_err t)), del_main s me)
     | PRelease e => (set_pc t (fin (RErr e)), set_claim s false)
-    | PRelAdm r => (finish t r, set_adm s (filter (fun c => negb (N.eqb c l)) (admk s)))   (* ReleaseAdmission *)
+    | PRelAdm r => (finish t r, set_adm s (filter (fun e => negb (N.eqb (fst e) l)) (admk s)))   (* ReleaseAdmission *)
     | PDelGet => (finish t RUnmodelled, s)
     | PDone _ => (t, s)
     | _ => (finish t RUnmodelled, s)
@@ -253,7 +269,7 @@ Section Step.
         let t := set_fault t fl in
         if f then (finish t (RErr EConflict), s)
         else if claim s then (finish t (RErr EConflict), s)
-        else (set_pc t (if expired s then PDelGet else PUpdCode), set_claim s true)
+        else (set_pc t (if expired s then PDelGet else PUpdCode), set_claim_dl s true (now s + claim_ttl s)%N)
     | PDelGet =>                                        (* repo.Update on an expired code: Delete -> GetByID *)
         match by_id s with
         | None => (finish t RGone, s)                   (* "already deleted" counts as success; nothing written *)
@@ -306,6 +322,13 @@ Section Step.
     match l_kind t with
     | KAct l la ok => act_step l la ok t s
     | KList => list_step t s
+    | KStall d => match l_pc t with
+                  | PDone _ => (t, s)
+                  | _ => let n := (now s + d)%N in
+                         if (p_win P <=? n)%N
+                         then (finish t RTick, set_expired (set_clock s n (claim s) (filter (fun e => (n <? snd e)%N) (admk s))))
+                         else (finish t RTick, set_clock s n (claim s && (n <? claim_dl s)%N) (filter (fun e => (n <? snd e)%N) (admk s)))
+                  end
     | KRev => rev_step t s
     | KTick => match l_pc t with
                | PDone _ => (t, s)
@@ -322,11 +345,12 @@ Definition init_lo (me : nat) (k : kind) (nocode : bool) (f : option nat) : lo :
              | KRev => PGet        (* the harness never revokes with an empty code *)
              | KTick => PGet
              | KList => PGet
+             | KStall _ => PGet
              end;
      l_snap := fresh_code; l_fault := f; l_err := 0 |}.
 
 Definition init_sh (code : option crec) : sh :=
-  {| expired := false; by_code := code; by_id := code; claim := false; admk := []; mains := []; glob := []; cidx := []; tidx := true |}.
+  {| expired := false; by_code := code; by_id := code; claim := false; admk := []; mains := []; glob := []; cidx := []; tidx := true; now := 0; claim_dl := 0 |}.
 
 (* gate-op code of the storage call a thread is parked at (harness/cmd/c06/main.go op* constants) *)
 Definition pc_code (p : pc) : nat :=
